@@ -14,6 +14,7 @@ pub mod pglob;
 pub mod ppipe;
 pub mod pnum;
 pub mod pprintf;
+pub mod psem;
 pub mod pstat;
 pub mod ptime;
 pub mod pregex;
@@ -54,6 +55,7 @@ pub fn get(name: &str) -> Option<Box<dyn Prop>> {
         "C10" => Some(Box::new(pdelete::PDelete::default())),
         "C07" => Some(Box::new(ppipe::PPipe::default())),
         "C06" => Some(Box::new(p06::P06::default())),
+        "SEM" => Some(Box::new(psem::PSem::default())),
         "C04" => Some(Box::new(p04::P04::default())),
         "C05" => Some(Box::new(p05::P05::default())),
         "C19" => Some(Box::new(p19::P19::default())),
